@@ -551,6 +551,255 @@ def contract_only(repo: Repo) -> List[Ob]:
     return obs
 
 
+# ----------------------------------------------------------------------------- CONTRACT-VEC
+# The ket that replaces a pure density matrix must be the eigenvector of eigenvalue one: a *column* of the eigenvector matrix chosen by the
+# eigenvalues, or a normalised column of rho itself (rho[:, k] = psi * conj(psi_k)).  A row of rho is proportional to conj(psi) – equal to psi
+# for real amplitudes only – and a row of the eigenvector matrix is no eigenvector at all.
+_PASS_METHODS = {"reshape", "astype", "flatten", "ravel", "squeeze", "copy", "block_until_ready"}
+_PASS_FUNCS = {"reshape", "asarray", "array", "expand_dims", "squeeze", "ravel", "atleast_2d", "real_if_close"}
+
+
+class _VecEval:
+    def __init__(self, fi: FuncInfo, cfg: CFG, node: Node):
+        self.fi, self.cfg, self.node = fi, cfg, node
+
+    def _defs(self, name: str):
+        return [d for d in self.cfg.reaching_defs(self.node, name)]
+
+    def name_values(self, n: ast.Name, depth: int):
+        """values a local can hold here: list of (kind, payload) or None if not readable"""
+        out = []
+        for d in self._defs(n.id):
+            if d is self.cfg.entry or d.kind != "stmt" or not isinstance(d.ast, ast.Assign) or len(d.ast.targets) != 1:
+                return None
+            t, v = d.ast.targets[0], d.ast.value
+            sub = _VecEval(self.fi, self.cfg, d)
+            if isinstance(t, ast.Name):
+                out.append(sub.ev(v, depth + 1))
+            elif isinstance(t, ast.Tuple) and all(isinstance(e, ast.Name) for e in t.elts):
+                pos = [e.id for e in t.elts].index(n.id)
+                if isinstance(v, ast.Tuple) and len(v.elts) == len(t.elts):
+                    out.append(sub.ev(v.elts[pos], depth + 1))
+                else:
+                    out.append(sub.ev_item(v, pos, len(t.elts), depth + 1))
+            else:
+                return None
+        return out or None
+
+    def is_rho(self, e: ast.AST) -> bool:
+        return isinstance(e, ast.Attribute) and e.attr == "state" and src(e.value) == "self"
+
+    def ev_item(self, call: ast.AST, pos: int, arity: int, depth: int):
+        """value of item `pos` of a decomposition call"""
+        f = call_np(call) if isinstance(call, ast.Call) else None
+        if f in ("linalg.eigh", "linalg.eig") and call.args:
+            a = self.ev(call.args[0], depth + 1)
+            if a is not None and a["k"] == "mat" and a["of"] == "rho" and not a["T"] and not a["conj"]:
+                return {"k": "evals", "call": id(call)} if pos == 0 else {"k": "mat", "of": "eig", "T": False, "conj": False, "call": id(call), "fn": f}
+        return None
+
+    def ev(self, e: ast.AST, depth: int = 0):
+        if depth > 12:
+            return None
+        if self.is_rho(e):
+            ds = self.cfg.reaching_defs(self.node, "@self.state")
+            if all(d is self.cfg.entry for d in ds):
+                return {"k": "mat", "of": "rho", "T": False, "conj": False}
+            return None
+        if isinstance(e, ast.Name):
+            vs = self.name_values(e, depth)
+            if not vs or any(v is None for v in vs):
+                return None
+            first = vs[0]
+            return first if all(_same_abs(v, first) for v in vs) else None
+        if isinstance(e, ast.Attribute):
+            base = self.ev(e.value, depth + 1)
+            if e.attr in ("T", "mT") and base is not None and base["k"] == "mat":
+                return dict(base, T=not base["T"])
+            if e.attr == "H" and base is not None and base["k"] == "mat":
+                return dict(base, T=not base["T"], conj=not base["conj"])
+            if e.attr in ("eigenvectors", "eigenvalues") and isinstance(e.value, ast.Call):
+                return self.ev_item(e.value, 0 if e.attr == "eigenvalues" else 1, 2, depth + 1)
+            return None
+        if isinstance(e, ast.Subscript):
+            if isinstance(e.value, ast.Call) and isinstance(e.slice, ast.Constant) and isinstance(e.slice.value, int):
+                it = self.ev_item(e.value, e.slice.value, 2, depth + 1)
+                if it is not None:
+                    return it
+            base = self.ev(e.value, depth + 1)
+            if base is None:
+                return None
+            if base["k"] == "mat":
+                o = _orient(e.slice)
+                if o is None:
+                    return None
+                orient, idx = o
+                if base["T"]:
+                    orient = "row" if orient == "col" else "col"
+                return {"k": "vec", "of": base["of"], "orient": orient, "conj": base["conj"], "idx": idx, "norm": False, "call": base.get("call"), "fn": base.get("fn")}
+            if base["k"] == "vec":
+                # v[:, None], v[None, :] … re-shaping subscripts
+                parts = e.slice.elts if isinstance(e.slice, ast.Tuple) else [e.slice]
+                if all((isinstance(p, ast.Slice) and p.lower is None and p.upper is None and p.step is None) or (isinstance(p, ast.Constant) and p.value is None)
+                       or (np_name(p) == "newaxis") for p in parts):
+                    return base
+            return None
+        if isinstance(e, ast.BinOp) and isinstance(e.op, (ast.Div, ast.Mult)):
+            l, r = self.ev(e.left, depth + 1), self.ev(e.right, depth + 1)
+            if l is not None and l["k"] == "vec" and (r is None or r["k"] not in ("vec", "mat")):
+                return dict(l, norm=l["norm"] or isinstance(e.op, ast.Div))
+            if isinstance(e.op, ast.Mult) and r is not None and r["k"] == "vec" and (l is None or l["k"] not in ("vec", "mat")):
+                return r
+            return None
+        if isinstance(e, ast.Call):
+            mc = method_call(e)
+            if mc is not None:
+                recv, m = mc
+                if np_name(recv) is None or True:
+                    base = self.ev(recv, depth + 1) if not (isinstance(recv, ast.Name) and recv.id in ("jnp", "np", "numpy", "jax")) else None
+                    if base is not None:
+                        if m in _PASS_METHODS and base["k"] in ("vec", "mat"):
+                            return base if base["k"] == "vec" else (base if m in ("astype", "copy") else None)
+                        if m in ("conj", "conjugate") and base["k"] in ("vec", "mat"):
+                            return dict(base, conj=not base["conj"])
+                        if m == "transpose" and base["k"] == "mat" and not e.args:
+                            return dict(base, T=not base["T"])
+                        if m == "take" and base["k"] == "mat":
+                            return self._take(base, e.args[:1], e.keywords)
+                        return None
+            f = call_np(e)
+            if f in _PASS_FUNCS and e.args:
+                a = self.ev(e.args[0], depth + 1)
+                return a if a is not None and a["k"] == "vec" else (a if a is not None and f in ("asarray", "array") else None)
+            if f in ("conj", "conjugate") and e.args:
+                a = self.ev(e.args[0], depth + 1)
+                return dict(a, conj=not a["conj"]) if a is not None and a["k"] in ("vec", "mat") else None
+            if f in ("transpose", "swapaxes") and e.args:
+                a = self.ev(e.args[0], depth + 1)
+                return dict(a, T=not a["T"]) if a is not None and a["k"] == "mat" else None
+            if f == "take" and len(e.args) >= 2:
+                a = self.ev(e.args[0], depth + 1)
+                return self._take(a, e.args[1:2], e.keywords) if a is not None and a["k"] == "mat" else None
+            return None
+        return None
+
+    def _take(self, base, idx_args, keywords):
+        ax = next((k.value for k in keywords if k.arg == "axis"), None)
+        if not idx_args or not (isinstance(ax, ast.Constant) and ax.value in (0, 1, -1, -2)):
+            return None
+        orient = "col" if ax.value in (1, -1) else "row"
+        if base["T"]:
+            orient = "row" if orient == "col" else "col"
+        return {"k": "vec", "of": base["of"], "orient": orient, "conj": base["conj"], "idx": idx_args[0], "norm": False, "call": base.get("call"), "fn": base.get("fn")}
+
+
+def _same_abs(a, b) -> bool:
+    if a is None or b is None:
+        return a is b
+    return {k: v for k, v in a.items() if k not in ("idx", "call")} == {k: v for k, v in b.items() if k not in ("idx", "call")}
+
+
+def _orient(sl: ast.AST):
+    """M[:, i] / M[..., i] -> ('col', i);  M[i] / M[i, :] / M[i, ...] -> ('row', i)"""
+    def full(p):
+        return (isinstance(p, ast.Slice) and p.lower is None and p.upper is None and p.step is None) or (isinstance(p, ast.Constant) and p.value is Ellipsis)
+    if isinstance(sl, ast.Tuple):
+        if len(sl.elts) != 2:
+            return None
+        a, b = sl.elts
+        if full(a) and not full(b) and not isinstance(b, ast.Slice):
+            return ("col", b)
+        if full(b) and not full(a) and not isinstance(a, ast.Slice):
+            return ("row", a)
+        return None
+    if isinstance(sl, ast.Slice):
+        return None
+    return ("row", sl)
+
+
+@rule("CONTRACT-VEC")
+def contract_vec(repo: Repo) -> List[Ob]:
+    obs: List[Ob] = []
+    P = ("C08", "C06", "C07")
+    sites = 0
+    for q in [t for t in TAG_FUNCS if t.endswith(".contract") and t != "CompositeEnvelope.contract"]:
+        fi = repo.func(q)
+        cfg, lv = self_levels(fi)
+        writes = [n for n in cfg.nodes if _is_self_state_write(n) and 2 in lv.get(n, frozenset())]
+        # the extraction is the first write of self.state on its path (the phase normalisation and the label step follow it)
+        first = [w for w in writes if all(d is cfg.entry for d in cfg.reaching_defs(w, "@self.state"))]
+        k = 0
+        for w in first:
+            a = w.ast
+            if not isinstance(a, ast.Assign):
+                continue
+            k += 1
+            key = f"extracted-ket#{k}"
+            v = _VecEval(fi, cfg, w).ev(a.value)
+            if v is None or v["k"] != "vec":
+                obs.append(skip("CONTRACT-VEC", fi, key, P, a, f"`{src(a.value)[:70]}`: cannot read which vector replaces the density matrix (not a row/column of rho or of its eigenvector matrix)"))
+                continue
+            sites += 1
+            what = "the eigenvector matrix" if v["of"] == "eig" else "rho"
+            if v["of"] == "eig":
+                ev = _VecEval(fi, cfg, w)
+                idx_ok = _idx_by_eigenvalues(ev, v["idx"], v.get("call"), v.get("fn"))
+                if v["orient"] == "row":
+                    obs.append(bad("CONTRACT-VEC", fi, key, P, a, f"`{src(a.value)[:60]}` takes a *row* of the eigenvector matrix: eigenvectors are its columns, a row is not a state of rho"))
+                elif v["conj"]:
+                    obs.append(bad("CONTRACT-VEC", fi, key, P, a, f"`{src(a.value)[:60]}` conjugates the eigenvector: that is the eigenvector of rho^T, equal to the state for real amplitudes only"))
+                elif idx_ok is False:
+                    obs.append(bad("CONTRACT-VEC", fi, key, P, a, f"the column `{src(v['idx'])[:40]}` of the eigenvector matrix is not selected by the eigenvalues: it need not be the eigenvector of eigenvalue one"))
+                elif idx_ok is None:
+                    obs.append(skip("CONTRACT-VEC", fi, key, P, a, f"cannot read how the column index `{src(v['idx'])[:40]}` is chosen"))
+                else:
+                    obs.append(ok("CONTRACT-VEC", fi, key, P, a, "column of eigh(rho)'s eigenvector matrix selected by the eigenvalues"))
+            else:
+                good_shape = (v["orient"] == "col" and not v["conj"]) or (v["orient"] == "row" and v["conj"])
+                if not good_shape:
+                    obs.append(bad("CONTRACT-VEC", fi, key, P, a,
+                                   f"`{src(a.value)[:60]}` takes a {'row' if v['orient'] == 'row' else 'conjugated column'} of {what}: for rho = |psi><psi| that is proportional to conj(psi), "
+                                   "the state itself only when all amplitudes are real"))
+                elif not v["norm"]:
+                    obs.append(bad("CONTRACT-VEC", fi, key, P, a, f"`{src(a.value)[:60]}`: a column of rho has norm |psi_k|, it is not divided by its norm"))
+                else:
+                    obs.append(ok("CONTRACT-VEC", fi, key, P, a, "normalised column of rho (proportional to psi)"))
+    if sites < 6:
+        und = [o for o in obs if o.status == "unanalysed"]
+        if not und:
+            raise AnalysisError(f"CONTRACT-VEC: {sites} Matrix->Vector extraction sites (floor 6)")
+    return obs
+
+
+def _idx_by_eigenvalues(ev: "_VecEval", idx: ast.AST, call_id, fn) -> Optional[bool]:
+    """True: the index is computed from the eigenvalues of the same decomposition (or is the last of eigh's ascending order)"""
+    if isinstance(idx, ast.UnaryOp) and isinstance(idx.op, ast.USub) and isinstance(idx.operand, ast.Constant) and idx.operand.value == 1:
+        return True if fn == "linalg.eigh" else False
+    if isinstance(idx, ast.Constant):
+        return False
+    found = False
+    for n in ast.walk(idx):
+        if isinstance(n, ast.Name) and isinstance(n.ctx, ast.Load):
+            vs = ev.name_values(n, 0)
+            if vs and all(v is not None and v["k"] == "evals" for v in vs):
+                found = True
+            elif vs is None:
+                ds = ev._defs(n.id)
+                for d in ds:
+                    if d is not ev.cfg.entry and d.kind == "stmt" and isinstance(d.ast, ast.Assign):
+                        r = _idx_by_eigenvalues(_VecEval(ev.fi, ev.cfg, d), d.ast.value, call_id, fn)
+                        if r:
+                            found = True
+            elif vs and all(v is None for v in vs):
+                ds = ev._defs(n.id)
+                for d in ds:
+                    if d is not ev.cfg.entry and d.kind == "stmt" and isinstance(d.ast, ast.Assign) and isinstance(d.ast.targets[0], ast.Name):
+                        r = _idx_by_eigenvalues(_VecEval(ev.fi, ev.cfg, d), d.ast.value, call_id, fn)
+                        if r:
+                            found = True
+    return True if found else None
+
+
 # ----------------------------------------------------------------------------- SANDWICH
 def _sandwich_props(fi: FuncInfo) -> tuple:
     n = fi.node.name
